@@ -303,12 +303,19 @@ class _Unroll(ast.NodeTransformer):
         if not (isinstance(it, (ast.Tuple, ast.List)) and 0 < len(it.elts) <= MAX_UNROLL):
             return None
         out = []
+
+        def ok_elt(x):
+            # a lambda display or a pure reader of a simple operand is as harmless to evaluate
+            # (again) as a name
+            return _simple_elt(x) or isinstance(x, ast.Lambda) or (
+                isinstance(x, ast.Call) and isinstance(x.func, ast.Name) and x.func.id in ('len', 'int', 'str', 'float')
+                and len(x.args) == 1 and not x.keywords and _simple_elt(x.args[0]))
         for e in it.elts:
-            if isinstance(target, ast.Name) and _simple_elt(e):
+            if isinstance(target, ast.Name) and ok_elt(e):
                 out.append({target.id: e})
             elif isinstance(target, (ast.Tuple, ast.List)) and isinstance(e, (ast.Tuple, ast.List)) and \
                     len(e.elts) == len(target.elts) and all(isinstance(t, ast.Name) for t in target.elts) and \
-                    all(_simple_elt(x) for x in e.elts):
+                    all(ok_elt(x) for x in e.elts):
                 out.append({t.id: x for t, x in zip(target.elts, e.elts)})
             else:
                 return None
@@ -328,7 +335,7 @@ class _Unroll(ast.NodeTransformer):
 
     def visit_Call(self, node):
         fn = node.func
-        if isinstance(fn, ast.Name) and fn.id in ('all', 'any', 'sum', 'list', 'tuple') and len(node.args) == 1 \
+        if isinstance(fn, ast.Name) and fn.id in ('all', 'any', 'sum', 'list', 'tuple', 'min', 'max') and len(node.args) == 1 \
                 and not node.keywords and isinstance(node.args[0], (ast.GeneratorExp, ast.ListComp)):
             items = self._comp_items(node.args[0], [node.args[0].elt])
             if items is not None:
@@ -340,6 +347,8 @@ class _Unroll(ast.NodeTransformer):
                     new = elts[0]
                     for x in elts[1:]:
                         new = ast.BinOp(left=new, op=ast.Add(), right=x)
+                elif fn.id in ('min', 'max'):
+                    new = elts[0] if len(elts) == 1 else ast.Call(func=ast.Name(id=fn.id, ctx=ast.Load()), args=elts, keywords=[])
                 else:
                     new = ast.List(elts=elts, ctx=ast.Load()) if fn.id == 'list' else ast.Tuple(elts=elts, ctx=ast.Load())
                 return ast.copy_location(new, node)
@@ -780,7 +789,39 @@ class _InlineStmts(ast.NodeTransformer):
                 return r
         return node
 
+    def _has_stmt_helper(self, e):
+        for n in ast.walk(e):
+            if isinstance(n, ast.Call):
+                owner, h, hname = self.inl.lookup(self.chain, n)
+                if h is not None and self.inl.eligible(h, hname, self.caller):
+                    b = _bind(h, n)
+                    if b is not None and self.inl.pure_expr(h, b) is None:
+                        return True
+        return False
+
     def visit_Assign(self, node):
+        # x = a and self._do(...)  : the helper runs only when a holds -- spelled out as
+        # x = a; if x: x = self._do(...)   (or: if not x) so that the helper can be inlined
+        v0 = node.value
+        if isinstance(v0, ast.BoolOp) and len(node.targets) == 1 and isinstance(node.targets[0], ast.Name) \
+                and any(self._has_stmt_helper(x) for x in v0.values[1:]) and not any(
+                    isinstance(n, ast.Name) and n.id == node.targets[0].id for n in ast.walk(v0)):
+            t = node.targets[0].id
+            out = [ast.copy_location(ast.Assign(targets=[ast.Name(id=t, ctx=ast.Store())], value=v0.values[0],
+                                                type_comment=None), node)]
+            for x in v0.values[1:]:
+                test = ast.Name(id=t, ctx=ast.Load())
+                if isinstance(v0.op, ast.Or):
+                    test = ast.UnaryOp(op=ast.Not(), operand=test)
+                out.append(ast.copy_location(ast.If(test=test, body=[ast.copy_location(ast.Assign(
+                    targets=[ast.Name(id=t, ctx=ast.Store())], value=x, type_comment=None), node)], orelse=[]), node))
+            res = []
+            for st in out:
+                ast.fix_missing_locations(st)
+                r = self.visit(st)
+                res += r if isinstance(r, list) else [r]
+            self.changed = True
+            return res
         pre = self._hoist(node)
         if pre:
             r = self.visit_Assign(node)
@@ -1161,6 +1202,9 @@ def normalize_module(tree, no_inline, all_classes=None, recorded=None):
     tree = _DictIdioms().visit(tree)
     tree = _IfExpDesugar().visit(tree)
     tree = _Unroll().visit(tree)
+    if _idioms.rewrite_tree(tree):
+        tree = _IfExpDesugar().visit(tree)
+        tree = _Unroll().visit(tree)
     classes = {n.name: n for n in tree.body if isinstance(n, ast.ClassDef)}
     known = dict(all_classes or {})
     known.update(classes)
